@@ -486,9 +486,27 @@ class Emitter:
         else:
             retz = 'return;'
         tmpc = [0]
+        # single back edge per loop head: CBMC treats every backward goto as a loop of its own and re-executes the body
+        # per back edge (exponential).  All backward edges to a head go through one trampoline placed after the last source.
+        bidx = {b.name: i for i, b in enumerate(f.blocks)}
+        latch_after = {}
+        def succs(b):
+            t = b.instrs[-1]
+            if t.op == 'br': return [t.x['dest']]
+            if t.op == 'condbr': return [t.x['t'], t.x['f']]
+            if t.op == 'switch': return [t.x['default']] + [lb for (_, lb) in t.x['cases']]
+            if t.op == 'invoke': return [t.x['normal'], t.x['unwind']]
+            return []
+        for b in f.blocks:
+            for sname in succs(b):
+                if bidx[sname] <= bidx[b.name]:
+                    latch_after[sname] = max(latch_after.get(sname, -1), bidx[b.name])
+        def target(frm, to):
+            if bidx[to] <= bidx[frm]: return 'LT_' + lbl[to][2:]
+            return lbl[to]
         def edge(frm, to):
             ps = phis[to]
-            if not ps: return 'goto %s;' % lbl[to]
+            if not ps: return 'goto %s;' % target(frm, to)
             vals = []
             for p in ps:
                 hit = None
@@ -512,7 +530,7 @@ class Emitter:
                 for p, v in zip(ps, vals):
                     if v.k == 'undef': continue
                     s.append('%s = %s;' % (env[p.res], cx(v)))
-            return '{ ' + ' '.join(s) + ' goto %s; }' % lbl[to]
+            return '{ ' + ' '.join(s) + ' goto %s; }' % target(frm, to)
         # pre-declare all results (so forward references in phis work)
         for b in f.blocks:
             for ins in b.instrs:
@@ -525,6 +543,8 @@ class Emitter:
             body.append('%s: ;' % lbl[b.name])
             for ins in b.instrs:
                 self.emit_instr(f, b, ins, body, decls, env, cx, edge, retz, tmpc)
+            for h in sorted([h for h, i in latch_after.items() if i == bidx[b.name]], key=lambda h: -bidx[h]):
+                body.append('LT_%s: goto %s;' % (lbl[h][2:], lbl[h]))
         out.append(self.proto(f) + ' {')
         out += ['  ' + d for d in decls]
         out += ['  ' + l for l in body]
@@ -622,12 +642,12 @@ class Emitter:
                 A('%s = (%s)(s%d)%s;' % (r, D, st.a, e)); return
             if op in ('fptoui', 'fptosi'):
                 n = dt.a
+                # out-of-range conversion yields poison (not immediate UB): LLVM may speculate it.  Source-level float-cast UB is
+                # caught by the explicit -fsanitize=float-cast-overflow trap checks compiled into the IR.
                 if op == 'fptoui':
-                    A('VERIF_UB(!(%s > -1.0 && %s < %s), "float-to-unsigned out of range");' % (e, e, float(2 ** n).hex()))
-                    A('%s = (%s)%s;' % (r, D, e))
+                    A('%s = (%s > -1.0 && %s < %s) ? (%s)%s : (%s)0;' % (r, e, e, float(2 ** n).hex(), D, e, D))
                 else:
-                    A('VERIF_UB(!(%s >= %s && %s < %s), "float-to-signed out of range");' % (e, (-float(2 ** (n - 1))).hex(), e, float(2 ** (n - 1)).hex()))
-                    A('%s = (%s)(s%d)%s;' % (r, D, n, e))
+                    A('%s = (%s >= %s && %s < %s) ? (%s)(s%d)%s : %s;' % (r, e, (-float(2 ** (n - 1))).hex(), e, float(2 ** (n - 1)).hex(), D, n, e, self.intlit(dt, 1 << (n - 1))))
                 return
             if op == 'ptrtoint':
                 A('%s = (%s)(uintptr_t)%s;' % (r, D, e)); return
@@ -945,6 +965,9 @@ class Emitter:
         m = self.m
         self.va_calls = set()
         self.throw_dtors = {}
+        for n, f in self.m.funcs.items():
+            if f.blocks is not None and san(n) in self.model_names and f.linkage != 'x':
+                self.overrides.add(n)
         self.reach()
         STDT = [('BAD_ALLOC', '_ZTISt9bad_alloc'), ('LENGTH_ERROR', '_ZTISt12length_error'), ('LOGIC_ERROR', '_ZTISt11logic_error'),
                 ('OUT_OF_RANGE', '_ZTISt12out_of_range'), ('INVALID_ARGUMENT', '_ZTISt16invalid_argument'),
